@@ -118,8 +118,9 @@ class Ctx:
         """all library headers, uninstantiated definitions only"""
         return self.unit("drivers/all_headers.cpp", config=config, inst=False, pattern=True)
 
-    def inst(self, driver="drivers/inst_char.cpp", config="sse2"):
-        return self.unit(driver, config=config, inst=True, pattern=True)
+    def inst(self, config="sse2", driver="drivers/inst.cpp"):
+        """instantiation view: the API-use driver for one character width / SIMD configuration"""
+        return self.unit(driver, config=config, inst=True, pattern=False)
 
     def note_fn(self, fn):
         self._fn_seen.add(fn.sig)
